@@ -265,11 +265,11 @@ def main(tier: str) -> int:
     ck.proof(extra_targets=["Run/C03.vo"])
 
     cases = gen_cases(ck.rng, tier)
-    macro_if = macro_if_supported()
-    if macro_if:
-        cases += macro_cases(ck.rng, tier == "quick")
-    ck.cov["macro_if"] = "covered (positions mif, mif1, mif_expand)" if macro_if else \
-        "not covered: the tree lacks fixes/C03-macro-if-lines.patch (`$if` with helper lines emits a macro line without variable)"
+    # (integrator) the repair is part of /repo (fix: 88a4f03): `$if` is ALWAYS covered, so that a tree that loses the repair
+    # is reported again; the probe only goes into the evidence
+    cases += macro_cases(ck.rng, tier == "quick")
+    ck.cov["macro_if"] = "covered (positions mif, mif1, mif_expand)"
+    ck.cov["macro_if_helper_present_in_source"] = macro_if_supported()
     for c in cases:
         c["src"] = program_for(c)
     results = compile_cases(cases)
